@@ -128,9 +128,9 @@ EXH_THOROUGH = EXH_QUICK + ["small", "small-honeypot", "small-linear"]
 
 
 def exhaustive(chk, rep, name, modes, cap=20000):
-    """BFS over all reachable states of a shipped scenario via generative_step:
-    every flat action x both draw sides in every state."""
-    source = {"kind": "shipped", "name": name}
+    """BFS over all reachable states of a scenario (shipped name or a source
+    dict) via generative_step: every flat action x both draw sides in every state."""
+    source = name if isinstance(name, dict) else {"kind": "shipped", "name": name}
     h = walk.build_harness(source, modes)
     if chk.on_start:
         chk.on_start(h, rep)
@@ -215,6 +215,39 @@ def _exh_shard(shard, seed, pid, tier, names, modes_list):
     return rep
 
 
+def _exh_docs_shard(shard, seed, pid, tier, n_docs, cap):
+    """thorough tier: exhaustive enumeration of random small documents"""
+    import hypothesis
+    from hypothesis import HealthCheck, Phase, given, settings
+    chk = CHECKS[pid]
+    rep = Reporter(pid, tier, chk.rule)
+    tot = dict(states=0, transitions=0, complete=0, capped=0)
+
+    @hypothesis.seed(seed)
+    @settings(max_examples=n_docs, deadline=None, database=None, phases=[Phase.generate], suppress_health_check=list(HealthCheck))
+    @given(doc=docs.documents(max_subnets=3, max_size=2, max_hosts=5, wide=0.15))
+    def t(doc):
+        src = {"kind": "doc", "doc": doc}
+        modes = {} if chk.modes is None else {"fully_obs": False, "flat_obs": True}
+        try:
+            s_, t_, complete = exhaustive(chk, rep, src, modes, cap=cap)
+        except walk.SourceRejected:
+            return
+        except Failure as f:
+            rep.fail(f.bucket, f.detail, dict(source=src, modes=modes, ops=[]))
+            return
+        tot["states"] += s_
+        tot["transitions"] += t_
+        tot["complete" if complete else "capped"] += 1
+    t()
+    rep.extra["exhaustive_states"] = tot["states"]
+    rep.extra["exhaustive_transitions"] = tot["transitions"]
+    rep.extra["exhaustive_documents_complete"] = tot["complete"]
+    rep.extra["exhaustive_documents_capped"] = tot["capped"]
+    rep.evaluations += tot["complete"] + tot["capped"]
+    return rep
+
+
 def run_corpus(chk, rep):
     n = 0
     for path in sorted(glob.glob(os.path.join(common.CORPUS_DIR, chk.pid, "*.json"))):
@@ -254,6 +287,9 @@ def main(pid, tier, replay=None):
                                   names=names, modes_list=modes_list)
         for p in parts:
             rep.merge(p)
+        if tier == "thorough":
+            for p in engine.run_shards(_exh_docs_shard, 16, common.mix_seed(seed, "exhdocs"), pid=pid, tier=tier, n_docs=13, cap=1200):
+                rep.merge(p)
         rep.extra["states"] = rep.extra.get("exhaustive_states", 0)
         rep.extra["transitions"] = rep.extra.get("exhaustive_transitions", 0)
     nshards = 16 if tier == "thorough" else 8
@@ -264,11 +300,7 @@ def main(pid, tier, replay=None):
         rep.merge(p)
     # minimise the first case of every bucket (ops only)
     runner = engine.CaseRunner(chk, Reporter(pid, tier, chk.rule))
-    for bucket, b in rep.buckets.items():
-        if b["case"] and b["case"].get("ops"):
-            try:
-                b["case"] = engine.minimise(runner, b["case"], bucket)
-            except Exception:
-                pass
+    for bucket in list(rep.buckets):
+        engine.minimise_bucket(runner, rep, bucket)
     docs.cleanup()
     return rep.finish()
